@@ -207,7 +207,14 @@ pub fn gen_volume(rng: &mut Rng, p: &VolParams) -> VolumeSpec {
             items.push(StreamItem::Meta(gen_fixed(rng, c)));
         }
     }
+    // a quarter of the volumes contain retransmitted radials: a message repeated byte for byte
+    // right after itself (equal in every field to its predecessor) must still be conserved
+    let retransmit = rng.chance(1, 4);
     for (elev, n) in runs {
+        // a sweep starts at whatever azimuth the antenna is at: numbering runs through north
+        // (…, 719, 720, 1, 2, …); an eighth of the runs carry arbitrary numbers in arbitrary order
+        let az_start = rng.usize_below(720);
+        let az_arbitrary = rng.chance(1, 8);
         for k in 0..n {
             // block subset: VOL only where decided, everything else random
             let mut subset = (rng.below(1024) as u16) & !1;
@@ -219,7 +226,7 @@ pub fn gen_volume(rng: &mut Rng, p: &VolParams) -> VolumeSpec {
             msg.hdr.elev_num = elev;
             msg.hdr.status = *rng.pick(&[0u8, 1, 1, 1, 2, 3, 4, 5]);
             msg.hdr.spacing = *rng.pick(&[1u8, 2, 2, 1, 0, 4]);
-            msg.hdr.az_num = (k % 720 + 1) as u16;
+            msg.hdr.az_num = if az_arbitrary { rng.u16() } else { ((az_start + k) % 720 + 1) as u16 };
             msg.hdr.date = base_date;
             msg.hdr.time = base_time + idx as u32; // unique identity
             for b in msg.blocks.iter_mut() {
@@ -242,6 +249,10 @@ pub fn gen_volume(rng: &mut Rng, p: &VolParams) -> VolumeSpec {
                 }
             }
             let hdr = MsgHeader::realistic(rng, 31);
+            let repeat = retransmit && rng.chance(1, 5);
+            if repeat {
+                items.push(StreamItem::Radial { hdr: hdr.clone(), msg: msg.clone() });
+            }
             items.push(StreamItem::Radial { hdr, msg });
             idx += 1;
             if p.meta_density > 0 && rng.chance(1, p.meta_density) {
